@@ -789,16 +789,15 @@ spif_dlinked_list_insert_at(spif_dlinked_list_t self, spif_obj_t obj, spif_listi
 
     if (idx == 0) {
         return spif_dlinked_list_prepend(self, obj);
-    } else if (idx == (self->len - 1) && !SPIF_DLINKED_LIST_ITEM_ISNULL(self->tail)) {
-        return spif_dlinked_list_append(self, obj);
-    } else if (idx > self->len || SPIF_DLINKED_LIST_ITEM_ISNULL(self->head)) {
+    } else if (idx >= self->len || SPIF_DLINKED_LIST_ITEM_ISNULL(self->head)) {
         for (i = self->len; i < idx; i++) {
             spif_dlinked_list_append(self, (spif_obj_t) NULL);
         }
         return spif_dlinked_list_append(self, obj);
     } else if (idx > (self->len / 2)) {
-        for (current = self->tail, i = self->len - 1; current->prev && i > idx; i--, current = current->prev);
-        if (i != idx) {
+        /* Find the node that will precede the new one. */
+        for (current = self->tail, i = self->len - 1; current->prev && i >= idx; i--, current = current->prev);
+        if (i != (idx - 1)) {
             return FALSE;
         }
     } else {
